@@ -91,6 +91,7 @@ void vcondvar::wait_raw(std::unique_lock<vmutex>& l) {
     while (m->owner != -1) { s.th[size_t(me)].st = BMutex; s.th[size_t(me)].on = m; s.pick(lk, false); }
     m->owner = me;
 }
+void vcondvar::yield_holding() { Sched& s = S(); std::unique_lock<std::mutex> lk(s.G); s.pick(lk, false); }
 void vcondvar::notify_all() { Sched& s = S(); std::unique_lock<std::mutex> lk(s.G); for (auto& t : s.th) if (t.st == BCv && t.on == this) t.st = Run; }
 void vthread::start(std::function<void()> body) {
     Sched& s = S(); int nid;
